@@ -50,12 +50,18 @@ Definition send_coins (b : bank) (from to : Z) (cs : coins) : bank * bool :=
 Definition rkey := (Z * Z * Z)%type.                    (* distribution name, type, recipient *)
 Definition k_name (k : rkey) := fst (fst k).
 Definition k_type (k : rkey) := snd (fst k).
-Definition k_rcp  (k : rkey) := snd k.
+(* a record is kept under the recipient's address AS WRITTEN in the message; bech32 has a second, all-upper-case spelling of
+   every address (it sorts before the lower-case one). Negative ids stand for that spelling of account id + SPELL: another
+   record key, the same account. [k_raw] is what the record is filed under, [k_rcp] the account that is paid. *)
+Definition SPELL : Z := 100000.
+Definition acct_of (r : Z) : Z := if r <? 0 then r + SPELL else r.
+Definition k_raw  (k : rkey) := snd k.
+Definition k_rcp  (k : rkey) := acct_of (snd k).
 Definition key_eqb (a b : rkey) : bool :=
-  (k_name a =? k_name b) && (k_type a =? k_type b) && (k_rcp a =? k_rcp b).
+  (k_name a =? k_name b) && (k_type a =? k_type b) && (k_raw a =? k_raw b).
 Definition key_ltb (a b : rkey) : bool :=
   (k_name a <? k_name b) ||
-  ((k_name a =? k_name b) && ((k_type a <? k_type b) || ((k_type a =? k_type b) && (k_rcp a <? k_rcp b)))).
+  ((k_name a =? k_name b) && ((k_type a <? k_type b) || ((k_type a =? k_type b) && (k_raw a <? k_raw b)))).
 
 Record drec := mkRec {
   r_coins : coins;
